@@ -1006,3 +1006,10 @@ def finish(tier, rep: Report):
         if len(rep.outcomes.get(kind, ())) < 2:
             fails.append(f"event kind {kind} produced a single outcome")
     return fails
+
+
+
+def stale_variant(task, tier):
+    """Tasks that are also run on meshes with a stale attribute blackboard (mc/families.py STALE; the runner appends
+    ':stale_attribute_blackboard' to the input class of anything found there)."""
+    return bool(task.get("kind") in ("polyline", "surface"))
